@@ -8,7 +8,11 @@ import Bng.Model.DhcpTermMonitor
     new radius|noradius <leaseSecs> [h1|h5]
     disc m<k> c<j>|-          req m<k> a<n> c<j>|-          rel m<k>          dec m<k> a<n>
     tick <secs>               cleanup                       gap <rel|dec|cleanup …>
-    fault qe|qi|nat on|off    the QoS egress / QoS ingress / subscriber_nat kernel map is full (a Put of a new key fails)
+    fault qe|qi|nat|sub|cidmap|cid|vlan on|off
+                              the QoS egress / QoS ingress / subscriber_nat / subscriber_pools / circuit_id_map /
+                              circuit_id_subscribers / vlan_subscriber_pools kernel map is full (a Put of a new key fails)
+    wfault sub|cidmap|cid on|off
+                              the Loader's handle of that cache map is write-protected: every Put and every Delete fails
     split <rel|dec …> / <rel|dec|cleanup …>                 shutdown
     estgap m<k> a<n> c<j>|- / <rel|dec|cleanup …>           a REQUEST with a termination inside its unlock window
 
@@ -85,6 +89,16 @@ def parseEstGap (toks : List String) : Option (Nat × Nat × Option Nat × Term)
       if 1 ≤ m && m ≤ 9 && a ≤ 15 then pure (m, a, c, t) else none
   | _ => none
 
+/-- wfault sub|cidmap|cid on|off -/
+def parseWfault (toks : List String) : Option (Nat × Bool) :=
+  match toks with
+  | ["wfault", w, on] =>
+    if on == "on" || on == "off" then
+      (if w == "sub" then some 3 else if w == "cidmap" then some 4 else if w == "cid" then some 5 else none).map
+        fun n => (n, on == "on")
+    else none
+  | _ => none
+
 def parseOp (toks : List String) : Option Op :=
   match toks with
   | ["disc", m, c] => do
@@ -97,7 +111,9 @@ def parseOp (toks : List String) : Option Op :=
   | ["shutdown"] => some .shutdown
   | ["fault", w, on] =>
     if on == "on" || on == "off" then
-      (if w == "qe" then some 0 else if w == "qi" then some 1 else if w == "nat" then some 2 else none).map
+      (if w == "qe" then some 0 else if w == "qi" then some 1 else if w == "nat" then some 2
+       else if w == "sub" then some 3 else if w == "cidmap" then some 4 else if w == "cid" then some 5
+       else if w == "vlan" then some 6 else none).map
         fun n => .fault n (on == "on")
     else none
   | "gap" :: rest => (parseTerm rest true).map (.gap [])
@@ -238,6 +254,9 @@ def step (st : St) (toks : List String) (impl : String) : St × LineResult :=
           let inner := withOrder order inner
           let (m', r, ran) := estGap m k a c inner
           some (m', s!"estgap {showReply r} {if ran then termReply inner else "notrun"}", .estGap k a c inner)
+        | none =>
+        match parseWfault toks with
+        | some (w, on) => some ((stepX m (.wfault w on)).1, "ok", .wfault w on)
         | none =>
         match parseOp toks with
         | none => none
